@@ -44,7 +44,7 @@ const M_ALPH: [[f64; 4]; 8] = [
     [0.0, 2.0, 4.0, 5.0],
 ];
 const B_REAL: [f64; 4] = [-0.5, 0.2, 0.7, 1.5];
-const B_REAL_THR: [f64; 3] = [0.0, 0.5, 0.7];
+const B_REAL_THR: [f64; 4] = [0.0, 0.5, 0.7, -0.7];
 const B_SHIFT: [f64; 8] = [0.0, 0.25, -1.0, 3.0, 0.125, -0.375, 10.0, -7.5];
 const C_ALPH: [f64; 3] = [0.0, 1.0, 2.0];
 const ALPHAS: [[f64; 3]; 8] = [
@@ -698,7 +698,7 @@ impl Harness for C11 {
                 pl.lat(V::M, false, n, p, k, a, part);
             }
         }
-        // ---- Bernoulli, 0/1 data (binarize none / 0 / 0.5) and thresholded reals (thresholds 0 / 0.5 / 0.7)
+        // ---- Bernoulli, 0/1 data (binarize none / 0 / 0.5) and thresholded reals (thresholds 0 / 0.5 / 0.7 / -0.7)
         let b: &[(bool, usize, usize, usize, usize)] = if t {
             &[(false, 2, 1, 2, 1), (false, 2, 2, 2, 1), (false, 2, 3, 2, 1), (false, 3, 1, 2, 1), (false, 3, 2, 2, 1), (false, 3, 3, 2, 1), (false, 4, 1, 2, 1), (false, 4, 2, 2, 1),
               (false, 4, 3, 2, 1), (false, 4, 4, 2, 0), (false, 5, 1, 2, 1), (false, 5, 2, 2, 1), (false, 5, 3, 2, 0), (false, 6, 2, 2, 0),
@@ -779,7 +779,7 @@ impl Harness for C11 {
             bounds: json!({
                 "lattice": "every training set over the variant's alphabet with every labelling (G/M/B: onto k classes; Gaussian: every class >= 2 rows and non-zero variance; categorical: label values 0..3 with gaps) x configuration set; see NOTES.md for the (n,p,k,alphabet,config-set) list per tier",
                 "lattice_leaves_upper_bound": lattice_leaves,
-                "alphabets": {"gaussian": G_BASE, "multinomial": M_ALPH[(seed % 8) as usize], "bernoulli": "{0,1} (binarize none/0/0.5) and reals {-0.5,0.2,0.7,1.5} with thresholds {0,0.5,0.7}", "categorical": C_ALPH, "alpha": ALPHAS[(seed % 8) as usize]},
+                "alphabets": {"gaussian": G_BASE, "multinomial": M_ALPH[(seed % 8) as usize], "bernoulli": "{0,1} (binarize none/0/0.5) and reals {-0.5,0.2,0.7,1.5} with thresholds {0,0.5,0.7,-0.7}", "categorical": C_ALPH, "alpha": ALPHAS[(seed % 8) as usize]},
                 "label_maps": "0..k-1, {-3,7,10}, {2,3}/{1,2,4}, {-1,1}/{-2^40,5,2^52}",
                 "user_priors": "none + two dyadic prior vectors per k",
                 "queries": "the full alphabet^p lattice (categorical: every in-range code); judged when every value occurred in that column of the training set",
